@@ -274,7 +274,7 @@ pub fn run(ctx: &Ctx) -> Report {
         }
     }
     // byte-level cuts: everywhere in the thorough tier; for three types in the quick tier
-    let bytes_for = |t: i32, variant: usize| -> bool { !cfg!(miri) && (ctx.thorough || matches!(t, 3 | 1 | 31) || variant > 0) };
+    let bytes_for = |t: i32, variant: usize| -> bool { !cfg!(miri) && (ctx.thorough || matches!(t, 3 | 1 | 11 | 21 | 28 | 31) || variant > 0) };
     let mut rep = par(ctx, items.len(), |idx, rep| {
         let (t, placement, variant) = items[idx];
         let mut r = Rng::derive(ctx.seed, &[tag("c11"), t as u64, placement as u64, variant as u64]);
